@@ -85,6 +85,7 @@ fn watched_execute(sc: &Scenario, cfg: &RunCfg, src: TapeSrc) -> RunResult {
         TapeSrc::Replay(t) => Some(t.clone()),
         TapeSrc::Seed(_) => None,
     };
+    sim_core::heartbeat();
     *CURRENT.lock().unwrap() = Some((sc.name.to_string(), cfg.index, Instant::now(), tape));
     let r = execute(sc, cfg, src);
     *CURRENT.lock().unwrap() = None;
@@ -239,12 +240,14 @@ pub fn worker_main(prop: &str, tier: Tier, widx: u64, wcount: u64, out: &Path) -
         std::thread::spawn(move || loop {
             std::thread::sleep(std::time::Duration::from_millis(500));
             let cur = CURRENT.lock().unwrap().clone();
-            if let Some((scen, idx, started, tape)) = cur {
-                if started.elapsed().as_secs() >= limit {
+            if let Some((scen, idx, _started, tape)) = cur {
+                // the harness regains control (and beats) between any two calls into the system
+                // under test; silence for this long means ONE such call never returned
+                if sim_core::since_heartbeat_ms() >= limit * 1000 {
                     let v = json!({
                         "property": prop, "scenario": scen, "tier": tier.as_str(), "index": idx, "seed": seed,
                         "clause": format!("{prop}.run_terminates"),
-                        "detail": format!("run did not finish within {limit} s of wall time: some task loops without yielding (scenario {scen}, index {idx})"),
+                        "detail": format!("a single call into the system under test did not return within {limit} s of wall time: it loops without yielding (scenario {scen}, index {idx})"),
                         "tape": match tape { Some(t) => json!(t), None => Value::Null }, "trace": [],
                     });
                     let _ = std::fs::write(out.with_extension("hang"), serde_json::to_string(&v).unwrap());
@@ -647,11 +650,14 @@ pub fn replay_main(path: &Path) -> i32 {
         let path = path.to_path_buf();
         let prop = prop.to_string();
         let clause = clause.to_string();
-        std::thread::spawn(move || {
-            std::thread::sleep(std::time::Duration::from_secs(limit));
-            println!("VIOLATION property={} replay={}", prop, path.display());
-            println!("  clause={clause} detail=replayed run did not finish within {limit} s of wall time");
-            std::process::exit(1);
+        sim_core::heartbeat();
+        std::thread::spawn(move || loop {
+            std::thread::sleep(std::time::Duration::from_millis(500));
+            if sim_core::since_heartbeat_ms() >= limit * 1000 {
+                println!("VIOLATION property={} replay={}", prop, path.display());
+                println!("  clause={clause} detail=a single call into the system under test did not return within {limit} s of wall time");
+                std::process::exit(1);
+            }
         });
     }
     let spec = match property_spec(prop) {
